@@ -1,9 +1,62 @@
 import Driver.Json
-open Lean Drv
+import Model.Paths
+open Lean Drv Ens Ens.Paths
 
 namespace Drv.C17
 
-def handle (op : String) (_req : Json) : Except String Json :=
-  throw s!"bad-op C17.{op}"
+def errStr : Err → String
+  | .indexError => "index-error"
+  | .valueError => "value-error"
+  | .outOfFuel => "out-of-fuel"
+
+def extJson : Ext → Json
+  | .ninf => Json.str "-inf"
+  | .pinf => Json.str "inf"
+  | .fin v => natJson v
+
+/-- flux matrix from its rows; entries outside the given rows read as 0 (never read by the model
+for indices `< n`) -/
+def matFn (rows : List (List Nat)) : Nat → Nat → Nat :=
+  let a : Array (Array Nat) := (rows.map List.toArray).toArray
+  fun i j => match a[i]? with
+    | none => 0
+    | some r => match r[j]? with
+      | none => 0
+      | some x => x
+
+def getScheme (j : Json) : Except String Scheme := do
+  match ← getStr j with
+  | "subtract" => pure .subtract
+  | "bottleneck" => pure .bottleneck
+  | s => throw s!"bad scheme {s}"
+
+def handle (op : String) (req : Json) : Except String Json := do
+  match op with
+  | "top_path" =>
+    let rows ← getList (getList getNat) (← field req "flux")
+    let sources ← getList getNat (← field req "sources")
+    let sinks ← getList getNat (← field req "sinks")
+    match topPath rows.length (matFn rows) sources sinks with
+    | .error e => pure (errJson (errStr e))
+    | .ok (p, fl) => pure (okJson (Json.mkObj [("path", listJson natJson p), ("flux", extJson fl)]))
+  | "paths" =>
+    let rows ← getList (getList getNat) (← field req "flux")
+    let sources ← getList getNat (← field req "sources")
+    let sinks ← getList getNat (← field req "sinks")
+    let scheme ← getScheme (← field req "scheme")
+    let numPaths ← match fieldOpt req "num_paths" with
+      | none => pure none
+      | some j => do let k ← getNat j; pure (some k)
+    let (cn, cd) ← match (← field req "cutoff") with
+      | .arr #[a, b] => do
+          let a ← a.getInt?
+          let b ← b.getNat?
+          if b = 0 then throw "zero denominator" else pure (a, b)
+      | _ => throw "cutoff must be [num, den]"
+    match paths rows.length (matFn rows) sources sinks scheme numPaths cn cd with
+    | .error e => pure (errJson (errStr e))
+    | .ok r => pure (okJson (listJson
+        (fun pf => Json.mkObj [("path", listJson natJson pf.1), ("flux", natJson pf.2)]) r))
+  | _ => throw s!"bad-op C17.{op}"
 
 end Drv.C17
